@@ -1,5 +1,8 @@
 """C07 - grammar binarization preserves every rule's yield function."""
+import contextlib
+import io
 import itertools
+import os
 from hypothesis import strategies as st
 
 from vlib import model as M
@@ -83,9 +86,14 @@ def check_deterministic(case):
     prefix = "C07/det-" + case["reordering"]
     gram = make_grammar([(f, l, {("X1",): 1}) for f, l in rules])
     result = call(prefix, grammar.binarize, gram, reordering=REORD[case["reordering"]], markov_opts=None)
+    verify_deterministic(prefix, case["reordering"], rules, result)
+
+
+def verify_deterministic(prefix, reordering, rules, result):
+    """result: {func: {lin: ...}} as returned by binarize or as decoded from a written grammar file"""
     check_result_shape(prefix, result)
     restored = unbinarize_deterministic(prefix, result)
-    if case["reordering"] == "none":
+    if reordering == "none":
         if sorted(restored) != sorted(set(rules)):
             missing = sorted(set(rules) - set(restored))[:1]
             extra = sorted(set(restored) - set(rules))[:1]
@@ -99,7 +107,7 @@ def check_deterministic(case):
             raise violation(prefix + "/not-restored", "input rule %r not restored up to re-ordering; got instead %r" % (missing, extra))
     for func, lin in rules:
         if len(func) <= 3:
-            if case["reordering"] == "none":
+            if reordering == "none":
                 if func not in result or lin not in result[func]:
                     raise violation(prefix + "/small-rule-changed", "%r %r" % (func, lin))
             else:
@@ -161,17 +169,21 @@ def check_markov(case):
     prefix = "C07/markov-" + case["reordering"]
     gram = make_grammar(rules)
     result = call(prefix, grammar.binarize, gram, reordering=REORD[case["reordering"]], markov_opts=opts)
+    verify_markov(prefix, case["reordering"], [(f, l) for f, l, _v in rules], result, "v=%d h=%d nofanout=%r" % (case["v"], case["h"], case["nofanout"]))
+
+
+def verify_markov(prefix, reordering, rules, result, desc):
     check_result_shape(prefix, result)
-    for func, lin, _v in rules:
+    for func, lin in rules:
         rank = len(func) - 1
         if rank <= 2:
-            ok = (func in result and lin in result[func]) if case["reordering"] == "none" else \
+            ok = (func in result and lin in result[func]) if reordering == "none" else \
                 any(lcfrs.canonical(f, l) == lcfrs.canonical(func, lin) for f in result if len(f) == len(func) and f[0] == func[0] for l in result[f])
             if not ok:
                 raise violation(prefix + "/small-rule-changed", "%r %r" % (func, lin))
             continue
-        if not find_chain(result, func, lin, exact=(case["reordering"] == "none")):
-            raise violation(prefix + "/no-chain", "no chain of result rules composes to %r %r (v=%d h=%d nofanout=%r)" % (func, lin, case["v"], case["h"], case["nofanout"]))
+        if not find_chain(result, func, lin, exact=(reordering == "none")):
+            raise violation(prefix + "/no-chain", "no chain of result rules composes to %r %r (%s)" % (func, lin, desc))
 
 
 # ----------------------------------------------------------------------------------------------- generators
@@ -291,3 +303,122 @@ def check_treebank(case):
 UNITS = [Unit("enum_det", gen_enum_det, check_deterministic, shards=(8, 16)),
          Unit("enum_markov", gen_enum_markov, check_markov, shards=(8, 16)),
          Unit("treebank", gen_treebank, check_treebank, shards=(2, 8))]
+
+
+# ----------------------------------------------------------------------------------------------- binarization behind the command line
+
+def as_result(rules):
+    out = {}
+    for (func, lin), count in rules.items():
+        out.setdefault(func, {})[lin] = {(): count}
+    return out
+
+
+def verify_cli(prefix, mode, originals, rules):
+    reordering = "none" if mode["type"] == "leftright" else "optimal"
+    result = as_result(rules)
+    if mode.get("markov"):
+        verify_markov(prefix, reordering, originals, result, "v=%d h=%d nofanout=%r" % (mode["v"], mode["h"], bool(mode.get("nofanout"))))
+    else:
+        verify_deterministic(prefix, reordering, originals, result)
+
+
+def check_cli(case):
+    """`treetools grammar <treebank> <prefix> leftright|optimal [--markov ...]`: the written grammar, decoded independently,
+    must be a binarization of the treebank's rules (reference extraction from the set model)"""
+    from vlib import cligrammar
+    rules, _lex = cligrammar.run("C07/cli", case)
+    gram, _ = lcfrs.extract_treebank(case["bank"])
+    verify_cli("C07/cli-" + case["mode"]["type"] + ("-markov" if case["mode"].get("markov") else ""), case["mode"],
+               [(f, l) for f in gram for l in gram[f]], rules)
+
+
+def check_cli_grammarfile(case):
+    """a grammar file (RCG, written by the tool from a hand-made grammar) as the input of `treetools grammar ... leftright|optimal`"""
+    from vlib import cligrammar
+    from vlib.repo import grammaroutput
+    originals = [(tuple(f), tuple(tuple(tuple(v) for v in arg) for arg in l)) for f, l in case["rules"]]
+    gram = make_grammar([(f, l, {("X1",): 1 + i % 3}) for i, (f, l) in enumerate(originals)])
+
+    def source(path):
+        with contextlib.redirect_stderr(io.StringIO()):
+            call("C07/cli-grammarfile/write-input", grammaroutput.rcg, gram, {"w": {"T": 1}}, path, "utf-8")
+    rules, _lex = cligrammar.run("C07/cli-grammarfile", dict(case, src_fmt="rcg", src_enc="utf-8", gz=0, before=[]), source=source)
+    verify_cli("C07/cli-grammarfile-" + case["mode"]["type"] + ("-markov" if case["mode"].get("markov") else ""), case["mode"], originals, rules)
+
+
+def cli_modes():
+    out = []
+    for typ in ("leftright", "optimal"):
+        out += [{"type": typ}, {"type": typ}, {"type": typ}]
+        for v in (0, 1, 2):
+            for h in (0, 1, 2, 3):
+                for nf in (False, True):
+                    out.append({"type": typ, "markov": True, "v": v, "h": h, "nofanout": nf})
+    return out
+
+
+def large_bank(n):
+    """n sentences, each with two productions of its own (one of rank 4): more than 100 distinct productions"""
+    bank = []
+    for i in range(n):
+        lab = "N" + "ABCDEFGHIJKLMNOPQRSTUVWXYZ"[i % 26] + "ABCDEFGHIJKLMNOPQRSTUVWXYZ"[i // 26]
+        # tags of its own, too: the rules that define the binarization symbols differ from sentence to sentence
+        toks = [{"w": "w", "p": "P" + lab[1:] + x, "n": j + 1, "e": "--", "lem": "--", "m": "--"} for j, x in enumerate("ABCDE")]
+        order = [0, 1, 2, 3]
+        inner = {"l": lab, "e": "--", "lem": "--", "m": "--", "c": [toks[j] for j in order]}
+        bank.append({"sid": i + 1, "root": {"l": "VROOT", "e": "--", "lem": "--", "m": "--", "c": [inner, toks[4]]}})
+    return bank
+
+
+def gen_cli(ctx):
+    from vlib import cligrammar
+    quick = ctx.tier == "quick"
+
+    def body(case):
+        check_cli(case)
+        gram, _ = lcfrs.extract_treebank(case["bank"])
+        rank = max(len(f) - 1 for f in gram)
+        ctx.count(key=case, nontrivial=rank >= 3, classes=cligrammar.classes(case) + ["cli:maxrank=%d" % min(rank, 5)])
+    if ctx.shard == 0:
+        # more productions than any portion-wise processing would take at once
+        for mode in ({"type": "leftright"}, {"type": "optimal"}, {"type": "leftright", "markov": True, "v": 1, "h": 1, "nofanout": False}):
+            case = {"bank": large_bank(70), "mode": mode, "src_fmt": "export", "src_enc": "utf-8", "dest_fmt": "rcg", "dest_enc": "utf-8", "gz": 0,
+                    "inproc": True, "before": []}
+            try:
+                ctx.run_case(body, case)
+            except Violation as vio:
+                ctx.record(vio)
+    ctx.hyp(cligrammar.settings(treebank(8 if quick else 11, 5), cli_modes()), body, max_examples=80 if quick else 800, shrink=False,
+            smaller=cligrammar.smaller)
+
+
+def gen_cli_grammarfile(ctx):
+    quick = ctx.tier == "quick"
+    pool = {}
+    for rank, lin in lcfrs.canonical_rules(4, 6, min_rank=3):
+        pool.setdefault((rank, tuple(lcfrs.fanouts(lin, rank))), []).append(lin)
+    keys = sorted(k for k in pool if len(pool[k]) >= 2)
+
+    @st.composite
+    def cases(draw):
+        rules = []
+        for i in range(draw(st.integers(1, 3))):
+            rank, fans = draw(st.sampled_from(keys))
+            func = ["L%s" % "ABC"[i]] + ["R%s" % "ABCD"[j] for j in range(rank)]
+            # several linearizations of one production with the same fan-outs
+            for lin in draw(st.lists(st.sampled_from(pool[(rank, fans)]), min_size=1, max_size=3, unique=True)):
+                rules.append([func, lin])
+        return {"rules": rules, "mode": dict(draw(st.sampled_from(cli_modes()))), "dest_fmt": draw(st.sampled_from(["pmcfg", "rcg"])),
+                "dest_enc": "utf-8", "inproc": True}
+
+    def body(case):
+        check_cli_grammarfile(case)
+        ctx.count(key=case, nontrivial=len(case["rules"]) >= 2, classes=["cli-grammarfile:type=%s%s" % (case["mode"]["type"], "+markov" if case["mode"].get("markov") else ""),
+                                                                       "cli-grammarfile:rules=%d" % len(case["rules"])])
+    ctx.hyp(cases(), body, max_examples=100 if quick else 1000, shrink=False,
+            smaller=lambda c: [dict(c, rules=c["rules"][:i] + c["rules"][i + 1:]) for i in range(len(c["rules"])) if len(c["rules"]) > 1])
+
+
+UNITS.append(Unit("cli", gen_cli, check_cli, shards=(2, 8)))
+UNITS.append(Unit("cli_grammarfile", gen_cli_grammarfile, check_cli_grammarfile, shards=(2, 8)))
